@@ -5,6 +5,7 @@
 -/
 import ScionTime.Model.FreqDrift
 import ScionTime.Proofs.F64Apply
+import ScionTime.Proofs.F64Duration
 namespace ScionTime.C18
 open ScionTime.F64 ScionTime.FreqDrift
 
@@ -96,4 +97,92 @@ theorem C18_scaledppm_roundtrip (x : Int) (hlo : -32768000 ≤ x) (hhi : x ≤ 3
       rw [if_neg (by omega)]
       omega
 
+end ScionTime.C18
+
+namespace ScionTime.C18
+open ScionTime.F64 ScionTime.FreqDrift
+
+/-- `UnknownDrift` (the value the service configures everywhere at the pinned commit) makes
+    `Drift` return `MaxInt64` for every interval. -/
+theorem C18_drift_unknown (d : Int) : drift unknownDrift d = 9223372036854775807 := by
+  unfold drift unknownDrift; rfl
+
+end ScionTime.C18
+
+namespace ScionTime.C18
+open ScionTime.F64 ScionTime.FreqDrift
+
+/-- drift_proportional.  For a clock whose drift field is the positive double `C`
+    (`2^-30 ≤ C ≤ 1024` s/s) and every interval `0 < d < 2^62` ns whose exact allowance
+    `E = d·C` is at most `2^62` ns, `Drift(d)` is `E` up to truncation to whole nanoseconds and
+    a relative error of `2^-50` (four correctly rounded operations): the allowance is
+    proportional to the interval. -/
+theorem C18_drift_proportional (C : Rat) (d : Int) (hd : 0 < d) (hd2 : d < 4611686018427387904)
+    (hC1 : 1 / 1073741824 ≤ C) (hC2 : C ≤ 1024) (hE : (d : Rat) * C ≤ 4611686018427387904) :
+    ((drift (.fin C) d : Int) : Rat) ≤ (d : Rat) * C + (d : Rat) * C / 1125899906842624 ∧
+    (d : Rat) * C - (d : Rat) * C / 1125899906842624 - 1 < ((drift (.fin C) d : Int) : Rat) := by
+  have hC0 : (0 : Rat) < C := by grind
+  obtain ⟨s, hs, s0, s1, s2⟩ := durationSeconds_pos d hd hd2
+  have hD1 : (1 : Rat) ≤ (d : Rat) := by simpa using Rat.intCast_le_intCast.mpr (show 1 ≤ d by omega)
+  unfold drift
+  have hb : beq (.fin C) unknownDrift = false := by
+    unfold beq unknownDrift toRat
+    simp; grind
+  rw [hb]
+  simp only [Bool.false_eq_true, if_false]
+  unfold duration toDuration
+  rw [hs, ofInt_e9]
+  have hmul1 : F64.mul (.fin s) (.fin C) = roundNE (s * C) := rfl
+  rw [hmul1]
+  -- exact allowance E = d·C, and S·C
+  have k1 := Rat.mul_le_mul_of_nonneg_right s1 (Rat.le_of_lt hC0)
+  have k2 := Rat.mul_le_mul_of_nonneg_right s2 (Rat.le_of_lt hC0)
+  have k3 := Rat.mul_le_mul_of_nonneg_right hD1 (Rat.le_of_lt hC0)
+  have e1 : (s * 1000000000 - (d : Rat)) * 9007199254740992 * C
+      = (s * C * 1000000000 - (d : Rat) * C) * 9007199254740992 := by grind
+  have e2 : ((d : Rat) - s * 1000000000) * 9007199254740992 * C
+      = ((d : Rat) * C - s * C * 1000000000) * 9007199254740992 := by grind
+  have e3 : 3 * (d : Rat) * C = 3 * ((d : Rat) * C) := by grind
+  rw [e1, e3] at k1
+  rw [e2, e3] at k2
+  generalize (d : Rat) * C = E at *
+  generalize hSC : s * C = SC at *
+  have hSCpos : 0 < SC := by rw [← hSC]; exact Rat.mul_pos s0 hC0
+  obtain ⟨_, a2⟩ := absR_eq SC
+  have a2' := a2 (by grind)
+  obtain ⟨p, hp, hpp, _⟩ := round_step SC (by grind) (by rw [a2']; grind) (by rw [a2']; grind)
+  obtain ⟨p0, p1, p2⟩ := hpp hSCpos
+  rw [hp]
+  have hmul2 : F64.mul (.fin p) (.fin 1000000000) = roundNE (p * 1000000000) := rfl
+  rw [hmul2]
+  have hq0 : 0 < p * 1000000000 := by grind
+  obtain ⟨_, b2⟩ := absR_eq (p * 1000000000)
+  have b2' := b2 (by grind)
+  obtain ⟨r, hr, hrp, _⟩ := round_step (p * 1000000000) (by grind) (by rw [b2']; grind) (by rw [b2']; grind)
+  obtain ⟨r0, r1, r2⟩ := hrp hq0
+  rw [hr]
+  unfold toInt64
+  have hrn : ¬ r < 0 := by grind
+  simp only [hrn, if_false]
+  have f1 := Rat.floor_le r
+  have f2 := Rat.lt_floor_add_one r
+  have f2' : r < (r.floor : Rat) + 1 := by
+    have : ((r.floor + 1 : Int) : Rat) = (r.floor : Rat) + 1 := by simp [Rat.intCast_add]
+    rw [this] at f2; exact f2
+  have hfl0 : 0 ≤ r.floor := Rat.le_floor_iff.mpr (by simpa using Rat.le_of_lt r0)
+  have hfl1 : r.floor ≤ 9223372036854775807 := by
+    have : r.floor < 9223372036854775808 := Rat.floor_lt_iff.mpr (by simp; grind)
+    omega
+  rw [if_neg (by omega)]
+  constructor <;> grind
+
+end ScionTime.C18
+
+namespace ScionTime.C18
+/-- The hypotheses of `C18_drift_proportional` are met, e.g., by a drift of 2^-16 s/s
+    (15 ppm, exactly a double) over a 64 s interval. -/
+example : (1 : Rat) / 1073741824 ≤ 1 / 65536 ∧ (1 : Rat) / 65536 ≤ 1024 ∧
+    ((64000000000 : Int) : Rat) * (1 / 65536) ≤ 4611686018427387904 := by
+  refine ⟨by grind, by grind, ?_⟩
+  simp; grind
 end ScionTime.C18
